@@ -97,7 +97,7 @@ PLANTED = [
      "        tmp_file = '%s.~%d' % (target_file, os.getpid())\n        with open(tmp_file, 'w') as f1:\n            f1.write(output)\n        try:\n            os.rename(tmp_file, target_file)\n        except OSError:\n            os.unlink(target_file)\n            os.rename(tmp_file, target_file)\n        return True",
      "        with open(target_file, 'w') as f1:\n            f1.write(output)\n        return True"),
     ('C23', 'compare without the extra byte', 'src/cffi/recompiler.py',
-     "if f1.read(len(output) + 1) != output:", "if f1.read(len(output)) != output:"),
+     "if f1.read(len(expected) + 1) != expected:", "if f1.read(len(expected)) != expected:"),
     ('C23', 'hash-ordered declarations', 'src/cffi/recompiler.py',
      "all_decls = sorted(self._typesdict, key=str)", "all_decls = sorted(self._typesdict, key=hash)"),
     ('C21', 'release() does not release the buffer', 'src/c/_cffi_backend.c',
